@@ -32,6 +32,10 @@ var vxCasePool = []string{
 	"footnote-policy: line", "overflow-wrap: anywhere", "word-break: break-all", "text-align-last: justify",
 	"font-kerning: none", "font-feature-settings: normal", "lang: none", "link: none", "anchor: none", "appearance: auto",
 	"block-ellipsis: auto", "continue: discard", "max-lines: none", "box-decoration-break: clone", "margin-break: keep",
+	// function names
+	"background-image: url(\"http://a.test/x\")", "content: attr(x)", "content: string(x)", "content: element(x)", "content: leader(dotted)",
+	"content: target-counter(attr(x), x)", "position: running(x)", "list-style-type: symbols(cyclic \"a\" \"b\")",
+	"string-set: x attr(x)", "content: counters(x, \".\")", "bookmark-label: content(text)",
 }
 
 func vxFlip(s string, id string) string {
